@@ -73,6 +73,7 @@ type serverUDPListener struct {
 	listenIP     net.IP
 	clientsMutex sync.RWMutex
 	clients      map[clientAddr]readFunc
+	owners       map[clientAddr]any
 
 	done chan struct{}
 }
@@ -108,6 +109,7 @@ func (u *serverUDPListener) initialize() error {
 	}
 
 	u.clients = make(map[clientAddr]readFunc)
+	u.owners = make(map[clientAddr]any)
 	u.done = make(chan struct{})
 
 	go u.run()
@@ -176,6 +178,7 @@ func (u *serverUDPListener) addClient(ip net.IP, port int, cb readFunc) {
 	defer u.clientsMutex.Unlock()
 
 	u.clients[addr] = cb
+	delete(u.owners, addr)
 }
 
 func (u *serverUDPListener) removeClient(ip net.IP, port int) {
@@ -186,4 +189,35 @@ func (u *serverUDPListener) removeClient(ip net.IP, port int) {
 	defer u.clientsMutex.Unlock()
 
 	delete(u.clients, addr)
+	delete(u.owners, addr)
+}
+
+// addClientOwned is addClient, and remembers who registered the address.
+// A new registration of the same address replaces the previous one.
+func (u *serverUDPListener) addClientOwned(ip net.IP, port int, owner any, cb readFunc) {
+	var addr clientAddr
+	addr.fill(ip, port)
+
+	u.clientsMutex.Lock()
+	defer u.clientsMutex.Unlock()
+
+	u.clients[addr] = cb
+	u.owners[addr] = owner
+}
+
+// removeClientOwned removes an address only if it is still registered by owner.
+// Two sessions of the same IP can ask for the same ports (i.e. a publisher that reconnects
+// while its previous session has not timed out yet): the one that ends
+// must not unregister the other one.
+func (u *serverUDPListener) removeClientOwned(ip net.IP, port int, owner any) {
+	var addr clientAddr
+	addr.fill(ip, port)
+
+	u.clientsMutex.Lock()
+	defer u.clientsMutex.Unlock()
+
+	if u.owners[addr] == owner {
+		delete(u.clients, addr)
+		delete(u.owners, addr)
+	}
 }
